@@ -106,10 +106,39 @@ var globs = []class{
 	{"g-quest-mod", `?[set:ab]?[nomatch-ok]`}, {"g-star-lit", `a*b*`}, {"g-only-mod", `[nomatch-ok]`}, {"g-badutf8", `"\xff"*[nomatch-ok]`},
 }
 
+// ---- flag module: argument lists x flag specifications (structured lists the generic pool cannot build)
+var flagArgs = []class{
+	{"fa-empty", `[]`}, {"fa-a", `[-a]`}, {"fa-a-eq", `[-a=x]`}, {"fa-long", `[--a 1 rest]`}, {"fa-dashdash", `[-- -a]`}, {"fa-dash", `[-]`},
+	{"fa-unknown", `[-zz]`}, {"fa-help", `[-h]`}, {"fa-eq-only", `[-=]`}, {"fa-missing", `[-n]`}, {"fa-badnum", `[-n x]`}, {"fa-nonstr", `[[a]]`},
+	{"fa-dup", `[-a -a]`}, {"fa-empty-str", `['']`}, {"fa-badutf8", `["-\xff"]`}, {"fa-cluster", `[-ab]`}, {"fa-opt-arg", `[-n1]`},
+}
+
+var flagSpecs = []class{
+	{"fs-empty", `[]`}, {"fs-bool", `[[a $false '']]`}, {"fs-dup", `[[a $true ''] [a $true '']]`}, {"fs-dup-types", `[[a $true ''] [a x '']]`},
+	{"fs-dash", `[[-a $true '']]`}, {"fs-eq", `[[a=b $true '']]`}, {"fs-empty-name", `[['' $true '']]`}, {"fs-num", `[[n (num 1) '']]`},
+	{"fs-list", `[[a [x] '']]`}, {"fs-str", `[[a x desc]]`}, {"fs-short", `[[a $true]]`}, {"fs-long", `[[a $true '' x]]`}, {"fs-nonstr-name", `[[[a] $true '']]`},
+	{"fs-nil-default", `[[a $nil '']]`}, {"fs-map-default", `[[a [&] '']]`}, {"fs-not-list", `[a]`}, {"fs-empty-spec", `[[]]`}, {"fs-help", `[[h $true ''] [help x '']]`},
+	{"fs-rat", `[[n (num 1/3) ''] [f (num 1.5) ''] [b (num 100000000000000000000) '']]`}, {"fs-space", `[['a b' $true '']]`},
+}
+
+var getoptSpecs = []class{
+	{"gs-empty", `[]`}, {"gs-short", `[[&short=a]]`}, {"gs-long", `[[&long=a]]`}, {"gs-both", `[[&short=a &long=a]]`}, {"gs-dup", `[[&short=a] [&short=a]]`},
+	{"gs-dup-long", `[[&long=a] [&long=a]]`}, {"gs-none", `[[&]]`}, {"gs-short-long", `[[&short=ab]]`}, {"gs-short-empty", `[[&short='']]`},
+	{"gs-long-empty", `[[&long='']]`}, {"gs-arg-req", `[[&short=n &arg-required=$true]]`}, {"gs-arg-opt", `[[&short=n &arg-optional=$true]]`},
+	{"gs-arg-both", `[[&short=n &arg-required=$true &arg-optional=$true]]`}, {"gs-bad-key", `[[&nosuch=a]]`}, {"gs-nonstr", `[[&short=[a]]]`},
+	{"gs-not-map", `[a]`}, {"gs-dash", `[[&short=-]]`}, {"gs-eq", `[[&long='a=b']]`}, {"gs-wide", `[[&short=é]]`}, {"gs-extra", `[[&short=a &extra=[x]]]`},
+}
+
+var flagFns = []class{
+	{"ff-none", `{ }`}, {"ff-bool", `{|&a=$false| }`}, {"ff-dash", `{|&-a=1| }`}, {"ff-num", `{|&n=(num 1)| }`}, {"ff-list", `{|&a=[x]| }`},
+	{"ff-nil", `{|&a=$nil| }`}, {"ff-map", `{|&a=[&]| }`}, {"ff-args", `{|x &a=$false| }`}, {"ff-rest", `{|@r &a=x| }`}, {"ff-throw", `{|&a=$false| fail x }`},
+	{"ff-help", `{|&h=$false &help=x| }`}, {"ff-under", `{|&a_b=$false &a-b=$true| }`},
+}
+
 // every affinity class by name (for directed probes)
 func affinityClass(n string) (class, bool) {
-	for _, l := range [][]class{rePatterns, reSubjects, reRepls, formats, fmtArgs, numStrings, stdinTexts, stdinReaders, globs,
-		opts("&posix", "&longest", "&max=0", "&max=-1", "&max=1", "&literal", "&sep-posix", "&sep-longest")} {
+	for _, l := range [][]class{rePatterns, reSubjects, reRepls, formats, fmtArgs, numStrings, stdinTexts, stdinReaders, globs, flagArgs, flagSpecs, getoptSpecs, flagFns,
+		opts("&posix", "&longest", "&max=0", "&max=-1", "&max=1", "&literal", "&sep-posix", "&sep-longest", "&on-parse-error={|e| }", "&on-parse-error={|e| fail y }", "&stop-after-double-dash", "&stop-before-non-flag", "&long-only")} {
 		for _, c := range l {
 			if c.Name == n {
 				return c, true
@@ -182,6 +211,14 @@ func affinityCalls(tab []cmd) ([]call, map[string]int) {
 		fns := []class{{"fn-ok", `{|@f| }`}, {"fn-put", `{|@f| put $@f }`}, {"fn-arity", `{|a b c| }`}}
 		ins := []class{{"in-lines", `['a b' ab '' " a\tb "]`}, {"in-elist", `[]`}, {"in-nonstr", `[[a] (num 1)]`}}
 		add("re", cross(cm, fns, ins, seps, opts("&sep-posix", "&sep-longest")))
+	})
+	// flag module: structured specifications
+	withCmd("flag:parse", func(cm cmd) { add("flag", cross(cm, flagArgs, flagSpecs)) })
+	withCmd("flag:parse-getopt", func(cm cmd) {
+		add("flag", cross(cm, flagArgs, getoptSpecs, opts("&stop-after-double-dash", "&stop-before-non-flag", "&long-only")))
+	})
+	withCmd("flag:call", func(cm cmd) {
+		add("flag", cross(cm, flagFns, flagArgs, opts("&on-parse-error={|e| }", "&on-parse-error={|e| fail y }")))
 	})
 	// format strings
 	withCmd("printf", func(cm cmd) {
